@@ -23,9 +23,9 @@ pub struct Env {
 }
 static ENV: OnceLock<Env> = OnceLock::new();
 
-pub const PROTO_ROOT: &str = "/repo/proto";
-pub const PY_ROOT: &str = "/repo/python/ommx/ommx/v1";
-pub const LEGACY_ARTIFACT: &str = "/repo/data/random_lp_instance.ommx";
+pub const PROTO_ROOT: &str = concat!(env!("VERIF_REPO_ROOT"), "/proto");
+pub const PY_ROOT: &str = concat!(env!("VERIF_REPO_ROOT"), "/python/ommx/ommx/v1");
+pub const LEGACY_ARTIFACT: &str = concat!(env!("VERIF_REPO_ROOT"), "/data/random_lp_instance.ommx");
 
 fn load_env() -> Result<Env, String> {
     let mut files: Vec<String> = std::fs::read_dir(format!("{PROTO_ROOT}/ommx/v1")).map_err(|e| e.to_string())?.flatten().map(|e| e.path().display().to_string()).filter(|p| p.ends_with(".proto")).collect();
